@@ -1,7 +1,7 @@
 (* Model of the data-flow context algebra of mistral (default configuration:
    context_versioning.enabled = True, engine.merge_strategy = replace).
    Anchors (file:function -> definition here):
-     mistral/workflow/context_versioning.py:_get_published_keys_recursively -> leaf_paths_v / leaf_paths
+     mistral/workflow/context_versioning.py:_get_published_keys_recursively -> pub_paths_v / pub_paths
      mistral/workflow/context_versioning.py:get_in_context_with_versions    -> with_versions (bump_all)
      mistral_lib/utils:update_dict                                           -> update_dict
      mistral/workflow/data_flow.py:evaluate_task_outbound_context            -> outbound
@@ -67,20 +67,23 @@ Definition getv (p : string) (vs : vers) : N :=
 Definition join_path (p k : string) : string :=
   if String.eqb p "" then k else p ++ "." ++ k.
 
-(* _get_published_keys_recursively: dotted paths of the non-dict leaves; [p] is the
-   path of [v] itself *)
-Fixpoint leaf_paths_v (p : string) (v : value) : list string :=
+(* _get_published_keys_recursively: the dotted paths whose version a published value bumps;
+   [p] is the path of [v] itself.  A non-dict value bumps its own path; a dict value bumps
+   its own path too (fix 883c1b22: the variable itself changes) and then the paths below it. *)
+Fixpoint pub_paths_v (p : string) (v : value) : list string :=
   match v with
   | VDict d =>
-      (fix go (d : dict) : list string :=
-         match d with
-         | [] => []
-         | (k, v') :: t => (leaf_paths_v (join_path p k) v' ++ go t)%list
-         end) d
+      p :: (fix go (d : dict) : list string :=
+              match d with
+              | [] => []
+              | (k, v') :: t => (pub_paths_v (join_path p k) v' ++ go t)%list
+              end) d
   | _ => [p]
   end.
 
-Definition leaf_paths (pub : dict) : list string := leaf_paths_v "" (VDict pub).
+(* the published dict itself has no path: only its entries are visited *)
+Definition pub_paths (pub : dict) : list string :=
+  flat_map (fun kv => pub_paths_v (join_path "" (fst kv)) (snd kv)) pub.
 
 Definition bump (p : string) (vs : vers) : vers := set p (getv p vs + 1)%N vs.
 
@@ -92,9 +95,9 @@ Record ctx := mkCtx { cdata : dict; cvers : vers }.
 Definition empty_ctx : ctx := mkCtx [] [].
 
 (* get_in_context_with_versions: deep copy of in_context, "__versions" created when
-   missing, one increment per published leaf path *)
+   missing, one increment per published path (leaves and dict nodes) *)
 Definition with_versions (c : ctx) (pub : dict) : ctx :=
-  mkCtx (cdata c) (bump_all (leaf_paths pub) (cvers c)).
+  mkCtx (cdata c) (bump_all (pub_paths pub) (cvers c)).
 
 (* utils.update_dict: left.update(right) - top-level replacement *)
 Definition update_dict (l r : dict) : dict :=
@@ -102,7 +105,7 @@ Definition update_dict (l r : dict) : dict :=
 
 (* evaluate_task_outbound_context (merge_strategy = replace) *)
 Definition outbound (c : ctx) (pub : dict) : ctx :=
-  mkCtx (update_dict (cdata c) pub) (bump_all (leaf_paths pub) (cvers c)).
+  mkCtx (update_dict (cdata c) pub) (bump_all (pub_paths pub) (cvers c)).
 
 (* _merge_ctx on two values found under the same key, whose dotted path is [p].
    Both dicts: keys of the right one are merged into the left one in the right one's
